@@ -1,3 +1,5 @@
 import CohdlVerif.Model.DriverLoop
--- model driver of property C05 (stub: no model entry points yet)
-def main : IO Unit := CohdlVerif.driverLoop (fun _ => "bad-op")
+import CohdlVerif.Model.C05
+-- model driver of property C05: `ok|ok0 FORM T SRC`, `spec T SRC`, `merge T SRC SRC`, `join SRC SRC`,
+-- `conv T S x`, `convlit T SRC`, `cast FORM T S x`  (see Model/C05.lean, "line protocol")
+def main : IO Unit := CohdlVerif.driverLoop CohdlVerif.C05.handle
